@@ -372,6 +372,23 @@ def run_operators(acc, api):
                             acc.violation('operator-result-not-a-value', f'{a} {op} {b} ({order}): {r[1]!r}', {'op': op, 'a': a, 'b': b})
                     if not (res[0][0] == res[1][0] and (res[0][0] != 'ok' or eq12(res[0][1], res[1][1]))):
                         acc.violation('operator-int-float-differs', f'{a} {op} {b} ({order}): int spelling {res[0]!r:.120}, float spelling {res[1]!r:.120}', {'op': op, 'a': a, 'b': b})
+    # datetime arithmetic with large millisecond counts (up to 1e15): the offset in both spellings, both operand orders
+    base_dt = [datetime.datetime(1970, 1, 1), datetime.datetime(2000, 2, 29, 12, 30, 15, 123000), datetime.date(1999, 12, 31)]
+    for n in [1, 1001, 86400000, 72000000000001, 123456789012345, 99999999999999, 999999999999999, -123456789012345, 2 ** 46 + 1, 10 ** 14 + 7, 31536000000 * 1500 + 1]:
+        for d in base_dt:
+            for op, order in (('+', 'dn'), ('+', 'nd'), ('-', 'dn')):
+                e = {'binary': {'op': op, 'left': {'variable': 'aa'}, 'right': {'variable': 'bb'}}}
+                res = []
+                for fn_ in (int, float):
+                    g = {'aa': d, 'bb': fn_(n)} if order == 'dn' else {'aa': fn_(n), 'bb': d}
+                    try:
+                        res.append(('ok', evaluate_expression(e, {'globals': g}, None, False)))
+                    except Exception as exc:  # pylint: disable=broad-except
+                        res.append(('exc', type(exc).__name__))
+                acc.case(('dt', op, order, n, repr(d)), True)
+                acc.count('datetime_offset_spellings')
+                if res[0][0] != res[1][0] or (res[0][0] == 'ok' and not (res[0][1] == res[1][1] if isinstance(res[0][1], datetime.date) and isinstance(res[1][1], datetime.date) else eq12(res[0][1], res[1][1]))):
+                    acc.violation('operator-int-float-differs', f'{d!r} {op} {n} ({order}): int spelling {res[0]!r:.120}, float spelling {res[1]!r:.120}', {'op': op, 'a': repr(d), 'b': n})
     for op in '!-':
         for a in grid:
             e = {'unary': {'op': op, 'expr': {'variable': 'aa'}}}
